@@ -48,8 +48,8 @@ type Ctx struct {
 	ReplayF string
 }
 
-func (c *Ctx) Thorough() bool { return c.Tier == "thorough" }
-func (c *Ctx) Count(k string) { c.Stats.Distribution[k]++ }
+func (c *Ctx) Thorough() bool         { return c.Tier == "thorough" }
+func (c *Ctx) Count(k string)         { c.Stats.Distribution[k]++ }
 func (c *Ctx) CountN(k string, n int) { c.Stats.Distribution[k] += n }
 
 // NonTrivial records one case with a canonical key; distinct keys are counted.
